@@ -64,6 +64,9 @@ def valid_configs():
     # the public port given as text
     out.append(dict(kind='eph', version=3, key=None, single_hop=None, auth=None, port_as_text=True))
     out.append(dict(kind='fs', version=3, dir='explicit', auth=None, port_as_text=True))
+    # the local port closes a reactor turn after stopListening(), as a real one does
+    out.append(dict(kind='eph', version=3, key=None, single_hop=None, auth=None, async_close=True))
+    out.append(dict(kind='fs', version=3, dir='explicit', auth=None, async_close=True))
     return out
 
 
@@ -189,7 +192,11 @@ def run_listen(cfg, via, cfg_mode, ch, public_port=80):
             fac.protocol = Protocol
             cmd = 'ADD_ONION' if cfg['kind'] == 'eph' else 'SETCONF'
             sim.hold_prefixes = [cmd] if late is None else ['GETINFO config/names']
-            rec = DRec(ep.listen(fac))
+            w.reactor.async_close = bool(cfg.get('async_close'))
+            open_at_result = []
+            d_listen = ep.listen(fac)
+            d_listen.addBoth(lambda r: (open_at_result.append([pp.port for pp in w.reactor.open_ports()]), r)[1])
+            rec = DRec(d_listen)
             injected = None
             if late is not None:
                 if c_cfg == 3:
@@ -244,18 +251,25 @@ def run_listen(cfg, via, cfg_mode, ch, public_port=80):
                     if rec.fires and not viol:
                         viol.append(('listen-fired-before-descriptor-upload', cfg['kind'], '%r' % (rec.summary(),)))
                     # step 4: the descriptor uploads
-                    c_up = ch.choose(5, 'uploads')          # 0 one succeeds, 1 every upload fails, 2 caller cancels the wait, 3 another service's upload succeeds first, 4 connection lost during the wait
+                    c_up = ch.choose(6, 'uploads')          # 0 one succeeds, 1 every upload fails, 2 caller cancels the wait, 3 another service's upload succeeds first, 4 connection lost during the wait, 5 connection lost before any upload was announced
                     hd = '$' + 'CD' * 20
+                    if c_up == 5:
+                        injected = 'lost-before-any-upload'
+                        impl.wire.lose(failure.Failure(error.ConnectionLost()))
+                        sim.pump()
                     if c_up == 3:
                         sim.event('HS_DESC UPLOAD %s UNKNOWN %s descX' % (other, hd2))
                         sim.event('HS_DESC UPLOADED %s UNKNOWN %s' % (other, hd2))
                         sim.pump()
                         if rec.fires:
                             viol.append(('listen-fired-before-descriptor-upload', cfg['kind'] + '/on-another-service-UPLOADED', '%r' % (rec.summary(),)))
-                    sim.event('HS_DESC UPLOAD %s UNKNOWN %s desc1' % (the_sid, hd))
-                    if rec.fires and not viol:
+                    if c_up != 5:
+                        sim.event('HS_DESC UPLOAD %s UNKNOWN %s desc1' % (the_sid, hd))
+                    if rec.fires and not viol and c_up != 5:
                         viol.append(('listen-fired-before-descriptor-upload', cfg['kind'] + '/on-UPLOAD', '%r' % (rec.summary(),)))
-                    if c_up in (0, 3):
+                    if c_up == 5:
+                        pass
+                    elif c_up in (0, 3):
                         sim.event('HS_DESC UPLOADED %s UNKNOWN %s' % (the_sid, hd))
                     elif c_up == 2:
                         injected = 'cancelled'
@@ -270,6 +284,9 @@ def run_listen(cfg, via, cfg_mode, ch, public_port=80):
                         injected = 'uploads-failed'
                         sim.event('HS_DESC FAILED %s UNKNOWN %s desc1 REASON=UPLOAD_REJECTED' % (the_sid, hd))
                     sim.pump()
+            # (ports asked to stop really close a reactor turn later)
+            while w.reactor.finish_closes():
+                sim.pump()
             # ---------------- oracle at quiescence
             cmds = sim.commands[base:]
             feat = '%s%s' % (cfg['kind'], '/auth' if cfg.get('auth') else '')
@@ -322,6 +339,7 @@ def run_listen(cfg, via, cfg_mode, ch, public_port=80):
                             viol.append(('reported-address', feat, 'getHost() -> %r:%r, Tor assigned %s, public port %d'
                                          % (getattr(host, 'onion_uri', None), getattr(host, 'onion_port', None), want_host, public_port)))
                         sd = port_obj.stopListening()
+                        w.reactor.finish_closes()
                         if p.open:
                             viol.append(('stopListening-did-not-close', feat, 'the local listener is still open'))
                         else:
@@ -330,6 +348,7 @@ def run_listen(cfg, via, cfg_mode, ch, public_port=80):
                             if not p.open:
                                 viol.append(('startListening-did-not-reopen', feat, 'after stopListening(), startListening() left the local listener closed'))
                             port_obj.stopListening()
+                            w.reactor.finish_closes()
                             if p.open:
                                 viol.append(('stopListening-did-not-close', feat + '/after-restart', 'stop, start, stop: the local listener is still open'))
             else:
@@ -345,6 +364,10 @@ def run_listen(cfg, via, cfg_mode, ch, public_port=80):
                         viol.append(('failure-not-the-injected-error', 'config-bootstrap', 'listen() failed with %r' % (e,)))
                     elif injected == 'rejected' and 'Tor says no' not in str(e):
                         viol.append(('failure-not-the-injected-error', 'rejected', 'listen() failed with %r' % (e,)))
+                if open_at_result and open_at_result[0] and rec.kind == 'err':
+                    viol.append(('listener-open-when-listen-failed', feat + '/after-%s' % (injected if isinstance(injected, str) else type(injected).__name__),
+                                 'listen() reported its failure while the local listener 127.0.0.1:%d was still open (it closed a turn later)'
+                                 % open_at_result[0][0]))
                 open_ports = w.reactor.open_ports()
                 if open_ports:
                     viol.append(('listener-leaked', feat + '/after-%s' % (injected if isinstance(injected, str) else type(injected).__name__),
